@@ -324,12 +324,26 @@ func c20Exchange(t *testing.T, s *verifh.Session, j *c20Judge, r *rand.Rand, o *
 		c.SetCommonFormData(map[string]string{"k": verifh.RandBytes(r, 3, "abc")})
 	}
 	rnd := []byte(verifh.RandBytes(r, 16, ""))
+	// SetOutput: the caller wants the body of the FINAL response in a writer (the 401 of an answered
+	// challenge must not end up there - whatever way the challenge is written)
+	var saved *bytes.Buffer
+	if mode.fixed == nil && r.Intn(6) == 0 {
+		saved = &bytes.Buffer{}
+		rq.SetOutput(saved)
+		count("save-output")
+	}
 	rq.SetHeader("X-Verif-Case", o.begin(sc))
 	var undo func()
 	if mode.identity {
 		undo = c20InjectRand(rnd, false)
 	}
 	var resp *Response
+	text := func() string {
+		if saved != nil {
+			return saved.String()
+		}
+		return resp.String()
+	}
 	p, pan := verifh.Safely(func() { resp, _ = rq.Send(method, o.srv.URL+uri) })
 	if undo != nil {
 		undo()
@@ -431,7 +445,7 @@ func c20Exchange(t *testing.T, s *verifh.Session, j *c20Judge, r *rand.Rand, o *
 				fail("error on a non-401 response: " + resp.Err.Error())
 			} else if resp.StatusCode != sc.firstStatus {
 				fail(fmt.Sprintf("status %d reported for %d", resp.StatusCode, sc.firstStatus))
-			} else if method != "HEAD" && sc.firstStatus != 204 && resp.String() != sc.firstBody {
+			} else if method != "HEAD" && sc.firstStatus != 204 && text() != sc.firstBody {
 				fail("response body changed")
 			}
 		}
@@ -448,13 +462,16 @@ func c20Exchange(t *testing.T, s *verifh.Session, j *c20Judge, r *rand.Rand, o *
 	normalised := false
 	if len(seen) == 2 && resp.Err == nil && resp.StatusCode == 200 && method != "HEAD" {
 		// informational only (outside the property): which body does the caller see after the resend?
-		switch resp.String() {
+		switch text() {
 		case "granted":
 			count("note:final-body=second-response")
 		case sc.firstBody:
 			count("note:final-body=stale-401-body")
 		default:
 			count("note:final-body=other")
+		}
+		if saved != nil && saved.String() != "granted" {
+			fail(fmt.Sprintf("SetOutput holds %q after the challenge was answered and the request granted, not the final response", c20Clip(saved.String())))
 		}
 	}
 	if len(seen) >= 2 {
